@@ -39,12 +39,41 @@ structure Leaf where
   quoted : Bool
   deriving Repr
 
-/-- save-style document values: scalars, objects (key operator value), arrays -/
+/-- save-style document values: scalars, objects (key operator value), arrays, header values
+(`rgb { 1 2 3 }`: an unquoted name followed by a container) -/
 inductive Node where
   | leaf (l : Leaf)
   | obj (fs : List (Bytes × Op × Node))
   | arr (vs : List Node)
+  | hdr (name : Bytes) (body : Node)
   deriving Repr
+
+mutual
+/-- well-formed: the body of every header value is a container -/
+def Node.wf : Node → Bool
+  | .leaf _ => true
+  | .obj fs => wfFields fs
+  | .arr vs => wfNodes vs
+  | .hdr _ (.obj fs) => wfFields fs
+  | .hdr _ (.arr vs) => wfNodes vs
+  | .hdr _ _ => false
+def wfFields : List (Bytes × Op × Node) → Bool
+  | [] => true
+  | (_, _, v) :: r => v.wf && wfFields r
+def wfNodes : List Node → Bool
+  | [] => true
+  | v :: r => v.wf && wfNodes r
+end
+
+def Node.isHdr : Node → Bool
+  | .hdr _ _ => true
+  | _ => false
+
+/-- inside an array a header value is two values: its name and its body (both parsers see it so) -/
+def expandNodes : List Node → List Node
+  | [] => []
+  | .hdr n b :: r => .leaf ⟨n, false⟩ :: b :: expandNodes r
+  | v :: r => v :: expandNodes r
 
 /-- a document is the field list of its top-level object -/
 abbrev Doc := List (Bytes × Op × Node)
@@ -112,7 +141,7 @@ def valueOfN (enc : Enc) : Nat → Ty → Op → Node → R Val
     | .prop t => (valueOfN enc f t .eq v).map (Val.prop o)
     | .seq t =>
       (match v with
-       | .arr vs => (seqVals (valueOfN enc f t .eq) vs).map Val.seq
+       | .arr vs => (seqVals (valueOfN enc f t .eq) (expandNodes vs)).map Val.seq
        | _ => .error .type)
     | .map t =>
       (match v with
@@ -126,8 +155,10 @@ def valueOfN (enc : Enc) : Nat → Ty → Op → Node → R Val
           | .ok seen => (structFinish fs 0 seen).map Val.st)
        | _ => .error .type)
     | ty =>
+      -- a header value read with a scalar target yields the header's name; its body is skipped
       (match v with
        | .leaf l => valueOfScalar enc ty l.bytes
+       | .hdr n _ => valueOfScalar enc ty n
        | _ => .error .type)
 
 /-- the value of a document under a target type: the root deserializer only works with
@@ -152,14 +183,35 @@ may leave fields undeclared: those are skipped whatever they contain), sequences
 `ign` fits everything; `Option` / `Property` are transparent -/
 inductive Fits (enc : Enc) : Ty → Node → Prop where
   | scalar {ty : Ty} {l : Leaf} : Ty.isPlainScalar ty = true → Fits enc ty (.leaf l)
+  | hdrScalar {ty : Ty} {n : Bytes} {b : Node} : Ty.isPlainScalar ty = true → Fits enc ty (.hdr n b)
   | ign {v : Node} : Fits enc .ign v
   | opt {t : Ty} {v : Node} : Fits enc t v → Fits enc (.opt t) v
   | prop {t : Ty} {v : Node} : Fits enc t v → Fits enc (.prop t) v
-  | seq {t : Ty} {vs : List Node} : (∀ v, v ∈ vs → Fits enc t v) → Fits enc (.seq t) (.arr vs)
+  | seq {t : Ty} {vs : List Node} : (∀ v, v ∈ expandNodes vs → Fits enc t v) → Fits enc (.seq t) (.arr vs)
   | map {t : Ty} {dfs : List (Bytes × Op × Node)} : (∀ k o v, (k, o, v) ∈ dfs → Fits enc t v) → Fits enc (.map t) (.obj dfs)
   | st {fs : List (Bytes × Ty)} {dfs : List (Bytes × Op × Node)} :
       (∀ k o v, (k, o, v) ∈ dfs → ∀ i t, lookupIdx (decode enc k) fs 0 = some (i, t) → Fits enc t v) →
       Fits enc (.st fs) (.obj dfs)
+
+/-- `Fits` as the tape path needs it (and therefore the agreement of the two paths).  The flag says
+whether the value is in field position: `Property` captures an operator only there (an array element
+has none: the tape path then reads the target as a map, the streaming path invents `=`); a header
+value in field position is read with a scalar target other than `any`, or ignored (with `any` the tape
+path presents the body, the streaming path the name: finding `text-reader-header`). -/
+inductive FitsT (enc : Enc) : Bool → Ty → Node → Prop where
+  | scalar {b : Bool} {ty : Ty} {l : Leaf} : Ty.isPlainScalar ty = true → FitsT enc b ty (.leaf l)
+  | hdrScalar {b : Bool} {ty : Ty} {n : Bytes} {body : Node} : Ty.isPlainScalar ty = true → ty ≠ .any →
+      FitsT enc b ty (.hdr n body)
+  | ign {b : Bool} {v : Node} : FitsT enc b .ign v
+  | opt {b : Bool} {t : Ty} {v : Node} : FitsT enc b t v → FitsT enc b (.opt t) v
+  | prop {t : Ty} {v : Node} : FitsT enc false t v → FitsT enc true (.prop t) v
+  | seq {b : Bool} {t : Ty} {vs : List Node} :
+      (∀ v, v ∈ expandNodes vs → FitsT enc false t v) → FitsT enc b (.seq t) (.arr vs)
+  | map {b : Bool} {t : Ty} {dfs : List (Bytes × Op × Node)} :
+      (∀ k o v, (k, o, v) ∈ dfs → FitsT enc true t v) → FitsT enc b (.map t) (.obj dfs)
+  | st {b : Bool} {fs : List (Bytes × Ty)} {dfs : List (Bytes × Op × Node)} :
+      (∀ k o v, (k, o, v) ∈ dfs → ∀ i t, lookupIdx (decode enc k) fs 0 = some (i, t) → FitsT enc true t v) →
+      FitsT enc b (.st fs) (.obj dfs)
 
 /-! ### parser outputs a document stands for -/
 
@@ -172,6 +224,7 @@ def lexNode : Node → List RTok
   | .leaf l => [l.rtok]
   | .obj fs => RTok.open_ :: lexFields fs ++ [RTok.close]
   | .arr vs => RTok.open_ :: lexNodes vs ++ [RTok.close]
+  | .hdr n b => RTok.unq n :: lexNode b
 def lexFields : List (Bytes × Op × Node) → List RTok
   | [] => []
   | (k, o, v) :: r => RTok.unq k :: RTok.op o :: (lexNode v ++ lexFields r)
@@ -195,6 +248,7 @@ def tapeNode : Nat → Node → List TTok
   | base, .arr vs =>
     let body := tapeNodes (base + 1) vs
     TTok.arr (base + 1 + body.length) false :: body ++ [TTok.end_ base]
+  | base, .hdr n b => TTok.hdr n :: tapeNode (base + 1) b
 def tapeFields : Nat → List (Bytes × Op × Node) → List TTok
   | _, [] => []
   | base, (k, o, v) :: r =>
@@ -203,6 +257,10 @@ def tapeFields : Nat → List (Bytes × Op × Node) → List TTok
     TTok.unq k :: opToks ++ val ++ tapeFields (base + 1 + opToks.length + val.length) r
 def tapeNodes : Nat → List Node → List TTok
   | _, [] => []
+  | base, .hdr n b :: r =>
+    -- inside an array the tape parser writes a header's name as an ordinary unquoted scalar
+    let val := tapeNode (base + 1) b
+    TTok.unq n :: val ++ tapeNodes (base + 1 + val.length) r
   | base, v :: r =>
     let val := tapeNode base v
     val ++ tapeNodes (base + val.length) r
